@@ -225,6 +225,44 @@ def one_case(ctx, seed, idx):
         I.DBusInterface.knownInterfaces.update(saved)
 
 
+def same_name_case(ctx, seed, idx):
+    """A subclass re-declares an interface name of its base class: calls are served by the subclass' definition
+    (first along the MRO), so that is the definition the XML must give to a peer."""
+    r = random.Random('%s/c15same/%s' % (seed, idx))
+    case = {'kind': 'same', 'idx': idx}
+    saved = dict(I.DBusInterface.knownInterfaces)
+    ctx.count('evaluations')
+    try:
+        name = 'org.verif.c15.S%d' % idx
+        base_if, base_desc = gen_interface(r, name)
+        der_if, der_desc = gen_interface(r, name)
+        other_if, other_desc = gen_interface(r, name + '.Other')
+        Base = type('SBase%d' % idx, (O.DBusObject,), {'dbusInterfaces': [base_if, other_if]})
+        Der = type('SDer%d' % idx, (Base,), {'dbusInterfaces': [der_if]})
+        obj = Der('/obj')
+        xml_text = X.generateIntrospectionXML('/obj', {'/obj': obj})
+        parsed = X.getInterfacesFromXML(xml_text, False)
+        first = [i for i in parsed if i.name == name][:1]
+        w = {'served_definition': der_desc, 'base_definition': base_desc, 'xml': xml_text[:2500]}
+        if not first:
+            ctx.report('interface-count', 'interface %s missing from the XML of an object exporting it' % name, w, case)
+            return
+        back = describe(first[0])
+        if back != der_desc:
+            w['parsed'] = back
+            ctx.report('shadowed-interface', 'object re-declaring interface %s in a subclass: the XML describes another '
+                       'definition than the one it serves' % name, w, case)
+            return
+        o2 = [i for i in parsed if i.name == name + '.Other'][:1]
+        if not o2 or describe(o2[0]) != other_desc:
+            ctx.report('interface-count', 'base-class interface lost or altered in the XML of a subclass instance', w, case)
+            return
+        ctx.count('same_name_hierarchies')
+    finally:
+        I.DBusInterface.knownInterfaces.clear()
+        I.DBusInterface.knownInterfaces.update(saved)
+
+
 def classify(diffs):
     return None
 
@@ -241,6 +279,8 @@ def run(ctx):
     ctx.budget(40 if quick else 400)
     for i in range(n):
         one_case(ctx, ctx.seed, i * sn + si)
+        if i % 10 == 0:
+            same_name_case(ctx, ctx.seed, i * sn + si)
         if ctx.stop_early() or (i % 64 == 0 and ctx.out_of_time()):
             break
     r = random.Random(5)
@@ -252,4 +292,4 @@ def run(ctx):
 
 
 def replay(ctx, rp):
-    one_case(ctx, rp.get('seed', 0), rp['case']['idx'])
+    (same_name_case if rp['case'].get('kind') == 'same' else one_case)(ctx, rp.get('seed', 0), rp['case']['idx'])
